@@ -307,8 +307,8 @@ def run(run):
     run.assume('exact real arithmetic: every numerical-stability claim (cond up to 1e10, R from 1e-8 to 1e8, 20x6) is OUTSIDE; what is decided is that the computed expressions are the conditional mean/covariance as algebraic identities',
                'preconditions: R positive definite (leading minors > 0), P positive semidefinite (principal minors >= 0); information form additionally det P > 0',
                'scipy cholesky / cho_solve / solve_triangular are explicit stubs (unrolled Cholesky of the named triangle; cho_solve of that very factor = adjugate/det solve; forward substitution), np.eye/@/dot are numpy on object arrays',
-               'dimensions: n_states <= 3 with <= 2 observations, <= 5 with 1 observation (quick: smaller); order independence of two independent scalar blocks for n_states = 2')
-    cfgs = [(1, 1), (2, 1), (3, 1), (2, 2)] if run.tier == 'quick' else [(1, 1), (2, 1), (3, 1), (4, 1), (5, 1), (2, 2), (3, 2)]
+               'dimensions: n_states <= 4 with <= 2 observations, <= 5 with 1 observation (quick: smaller; 3x3 and 2x3 are partly undecided after 240 s per obligation and outside); order independence of two independent scalar blocks for n_states = 2')
+    cfgs = [(1, 1), (2, 1), (3, 1), (2, 2)] if run.tier == 'quick' else [(1, 1), (2, 1), (3, 1), (4, 1), (5, 1), (2, 2), (3, 2), (4, 2)]
     timeout = 60 if run.tier == 'quick' else 300
     for n, m in cfgs:
         try:
